@@ -79,7 +79,7 @@ def run(tier, seed):
     docbytes = {}
     def body(d):
         k, s = d
-        return text_of(table, s) if k == "seq" else s
+        return text_of(table, s) if k == "seq" else (text_of(table, s, final=False) if k == "seqnf" else s)
     # 3. lemon traces (html, both modes for the short ones)
     segs = []
     tr_docs = traced + [("raw", corp[n]) for n in sorted(corp)]
@@ -131,6 +131,14 @@ def run(tier, seed):
     edocs = alldocs + [("raw", corp[n]) for n in sorted(corp)]
     if tier == "quick":
         edocs = [("seq", s) for s in seqs] + [("seq", s) for s in rnd.sample(seqs3, 6000)] + [("seq", s) for s in sim] + [("raw", corp[n]) for n in sorted(corp)]
+    # the same short sequences ending at end of input without a final newline (the last block meets EOF in every writer)
+    edocs += [("seqnf", s) for s in seqs]
+    # metadata that re-configures the conversion (format switch, header levels, languages, inserted headers/footers)
+    CONF = ["latex mode: beamer", "latex mode: memoir", "latexmode: article", "base header level: 3", "html header level: 4", "latex header level: -1", "odf header level: 2", "language: de", "quotes language: fr",
+            "css: x.css", "html header: <script></script>", "html footer: <!-- f -->", "latex config: article", "latex input: pre", "latex footer: post", "bibtex: refs", "biblio style: plain", "xhtml header: <x/>",
+            "title: T", "author: A\ndate: D", "mmd footer: nofile.txt", "transclude base: .", "latex leader: lead\nlatex begin: begin\nlatex footer: foot", "latex title: LT\nlatex author: LA", "uuid: u-1", "lang: xx", "language: zz"]
+    BODY = "# One [one]\n\ntext \"q\" [^n] [#c] [?g] [>a]\n\n## Two\n\n* item\n\n### Three\n\n[^n]: note\n[#c]: cite\n[?g]: gloss\n[>a]: abbr\n"
+    edocs += [("raw", (c.replace("\\n", "\n") + "\n\n" + BODY).encode()) for c in CONF]
     for i in range(0, len(edocs), per):
         s = ["seg\te2e", "ptrace\t0"]
         for j, d in enumerate(edocs[i:i + per]):
